@@ -74,19 +74,19 @@ package executor
 //@   ensures true
 
 //@ func newMySQLUndoUpdateExecutor
-//@   prop C09
+//@   prop C09 C01
 //@   ensures has-validator: result != nil && result.baseExecutor != nil && result.baseExecutor.sqlUndoLog == sqlUndoLog && result.sqlUndoLog == sqlUndoLog
 //@ func newMySQLUndoDeleteExecutor
-//@   prop C09
+//@   prop C09 C01
 //@   ensures has-validator: result != nil && result.baseExecutor != nil && result.baseExecutor.sqlUndoLog == sqlUndoLog && result.sqlUndoLog == sqlUndoLog
 //@   ensures queries-image-with-rows: result.baseExecutor.undoImage == sqlUndoLog.BeforeImage
 //@ func newMySQLUndoInsertExecutor
-//@   prop C09
+//@   prop C09 C01
 //@   ensures has-validator: result != nil && result.BaseExecutor != nil && result.BaseExecutor.sqlUndoLog == sqlUndoLog && result.sqlUndoLog == sqlUndoLog
 //@   ensures queries-image-with-rows: result.BaseExecutor.undoImage == sqlUndoLog.AfterImage
 
 //@ func (*BaseExecutor).dataValidationAndGoOn
-//@   prop C09
+//@   prop C09 C01
 //@   requires b != nil
 //@   let on := undo.UndoConfig.DataValidation
 //@   ensures validation-off: !on ==> result0 && result1 == nil && !called("IsRecordsEquals#1")
